@@ -117,6 +117,7 @@ type VC struct {
 	axioms      map[string][]*axiomRec
 	instDone    map[string]int
 	naxiom      int
+	rootObjs    []rootObj
 	taint       bool
 	nsecret     int
 	hyps        []func(at string)
@@ -243,6 +244,7 @@ type World struct {
 	taintRoots  map[string]bool
 	secrets   []string // byte-slice lvalues of the root receiver whose contents are secret (C18)
 	invariantMethods []string
+	propForInv string
 	unroll    int // >0: loops are unrolled this many times instead of cut (replay aid only)
 }
 
